@@ -7,7 +7,7 @@
 //! * `AST_GREP_VERIF_LOG=<file>`: append one JSON object per event to `<file>`
 //!   (a single `write(2)` per line on an `O_APPEND` descriptor).
 //! * `AST_GREP_VERIF_DELAYS="site=N,site2=M;seed=S"`: `failpoint(site)` sleeps a
-//!   pseudo-random 0..N microseconds.
+//!   pseudo-random 0..N microseconds; `yield_point(site).await` yields 0..N times.
 //! * `AST_GREP_VERIF_PRUNE=0`: skip the re-evaluation done by `prune`.
 //!
 //! The sink only takes its own lock and never calls back into ast-grep.
@@ -217,16 +217,12 @@ fn delays() -> Option<&'static Delays> {
   .as_ref()
 }
 
-/// Sleep a pseudo-random 0..N microseconds if `site` is configured; no-op otherwise.
-pub fn failpoint(site: &str) {
-  let Some(d) = delays() else {
-    return;
-  };
-  let Some((_, max)) = d.sites.iter().find(|(s, _)| s == site) else {
-    return;
-  };
+/// Pseudo-random draw in 0..=N for a configured `site`; None when the site is not configured.
+fn draw(site: &str) -> Option<u64> {
+  let d = delays()?;
+  let (_, max) = d.sites.iter().find(|(s, _)| s == site)?;
   if *max == 0 {
-    return;
+    return None;
   }
   static CALLS: AtomicU64 = AtomicU64::new(0);
   let n = CALLS.fetch_add(1, Ordering::Relaxed);
@@ -238,5 +234,39 @@ pub fn failpoint(site: &str) {
   z = (z ^ (z >> 30)).wrapping_mul(0xBF58_476D_1CE4_E5B9);
   z = (z ^ (z >> 27)).wrapping_mul(0x94D0_49BB_1331_11EB);
   z ^= z >> 31;
-  std::thread::sleep(std::time::Duration::from_micros(z % (*max + 1)));
+  Some(z % (*max + 1))
+}
+
+/// Sleep a pseudo-random 0..N microseconds if `site` is configured; no-op otherwise.
+pub fn failpoint(site: &str) {
+  if let Some(us) = draw(site) {
+    std::thread::sleep(std::time::Duration::from_micros(us));
+  }
+}
+
+/// One cooperative yield of an async task (no runtime dependency).
+pub struct YieldNow(bool);
+
+impl std::future::Future for YieldNow {
+  type Output = ();
+  fn poll(
+    mut self: std::pin::Pin<&mut Self>,
+    cx: &mut std::task::Context<'_>,
+  ) -> std::task::Poll<()> {
+    if self.0 {
+      std::task::Poll::Ready(())
+    } else {
+      self.0 = true;
+      cx.waker().wake_by_ref();
+      std::task::Poll::Pending
+    }
+  }
+}
+
+/// At an existing `.await` of an async handler: yield to the other ready tasks a pseudo-random
+/// 0..N times if `site` is configured (`site=N` in AST_GREP_VERIF_DELAYS); no-op otherwise.
+pub async fn yield_point(site: &str) {
+  for _ in 0..draw(site).unwrap_or(0) {
+    YieldNow(false).await;
+  }
 }
